@@ -437,6 +437,16 @@ func (ex *Exec) callFn(fn *ssa.Function, args []Value, env []Value) (result Valu
 					ex.abortStack = strings.Join(ex.callStack[lo:n], " > ")
 				}
 			}
+			if gp, isgp := r.(goPanic); isgp && gp.stack == "" && panicStackDiag {
+				n := len(ex.callStack)
+				lo := n - 10
+				if lo < 0 {
+					lo = 0
+				}
+				gp.stack = strings.Join(ex.callStack[lo:n], " > ")
+				gp.msg += " [stack: " + gp.stack + "]"
+				r = gp
+			}
 			ex.callStack = ex.callStack[:len(ex.callStack)-1]
 			panic(r)
 		}
